@@ -249,6 +249,64 @@ def _closure_call_block(B, cpath, cl, arg_ops, arg_tys, D, C, wrap, ln, mark, un
     return B.new_block(stmts, term, mark)
 
 
+def _lower_for_each(B, bi, nm, done):
+    """`it.for_each(f)` is `for x in it { f(x) }`: a loop around next() with the body called per item"""
+    b = B.blocks[bi]
+    t = b["term"]
+    if t.get("t") is None or b["cleanup"] or len(t["args"]) != 2:
+        return False
+    it = t["args"][0]
+    if it.get("k") not in ("move", "copy") or it["p"]["proj"]:
+        return False
+    c = B.closure_of(t["args"][1])
+    fitem = None
+    if c is None:
+        fa = t["args"][1]
+        if fa.get("k") == "const" and "fn" in fa:
+            fitem = fa["fn"]
+        else:
+            return False
+    ln = t.get("ln")
+    mark = {"low": nm}
+    crate = B.prog.doc.get("crate")
+    D, C = t["dest"], t["t"]
+    it_l = it["p"]["l"]
+    it_ty = B.locals[it_l]["ty"]
+    next_name = nm[:-len("for_each")] + "next"
+    nf = copy.deepcopy(t["f"])
+    for k_ in ("path", "rpath"):
+        if nf.get(k_, "").endswith("for_each"):
+            nf[k_] = nf[k_][:-len("for_each")] + "next"
+    nf["gargs"] = (nf.get("gargs") or [])[:1]
+    nf["lowered"] = True
+    item_ty = None
+    if c is not None:
+        g = B.prog.fns[c[0]]
+        item_ty = g.locals[2]["ty"] if len(g.locals) > 2 else None
+    opt_ty = "std::option::Option<%s>" % item_ty
+    n = B.new_local(opt_ty)
+    rf_ty = "&'{erased} mut %s" % it_ty
+    rf = B.new_local(rf_ty)
+    d = B.new_local("isize")
+    unit = B.new_local("()")
+    exit_b = B.new_block([_assign(copy.deepcopy(D), {"k": "use", "op": {"k": "const", "ty": "()", "dbg": "()", "zst": True}}, ln)], {"k": "goto", "t": C, "ln": ln}, mark)
+    unreachable = B.new_block([], {"k": "unreachable", "ln": ln}, mark)
+    # head is created first so the body can jump back to it
+    head = B.new_block([_assign(_place(rf, rf_ty), {"k": "ref", "mut": True, "p": _place(it_l, it_ty)}, ln)],
+                       {"k": "call", "f": nf, "args": [_mv(rf, rf_ty)], "dest": _place(n, opt_ty), "t": None, "unwind": t.get("unwind"), "ln": ln}, mark)
+    pay = _place(n, item_ty, [{"k": "downcast", "v": 1, "name": "Some"}, {"k": "field", "i": 0, "name": "0", "of": OPT, "ty": item_ty}])
+    if c is not None:
+        body = _closure_call_block(B, c[0], c[1], [{"k": "move", "p": pay}], [item_ty], _place(unit, "()"), head, None, ln, mark, t.get("unwind"), crate)
+        done[c[0]] = done.get(c[0], 0) + 1
+    else:
+        body = _fn_call_block(B, fitem, [{"k": "move", "p": pay}], _place(unit, "()"), head, None, ln, mark, t.get("unwind"), "()")
+    sw = B.new_block([_assign(_place(d, "isize"), {"k": "discr", "p": _place(n, opt_ty)}, ln)],
+                     {"k": "switch", "d": _mv(d, "isize"), "dty": "isize", "targets": [[0, exit_b], [1, body]], "otherwise": unreachable, "ln": ln}, mark)
+    B.blocks[head]["term"]["t"] = sw
+    b["term"] = {"k": "goto", "t": head, "ln": ln, "was_call": nm}
+    return True
+
+
 def _lower_special(B, bi, nm, done):
     b = B.blocks[bi]
     t = b["term"]
@@ -403,6 +461,9 @@ def lower_program(prog, remap, make_fn):
                 nm = _callee(t["f"])
                 if nm in SPEC or nm in SPECIAL:
                     if _lower_combinator(B, i, done):
+                        any_change = True
+                elif nm and (nm == "std::iter::Iterator::for_each" or nm.endswith("as std::iter::Iterator>::for_each")):
+                    if _lower_for_each(B, i, nm, done):
                         any_change = True
                 elif "{closure" in (nm or ""):
                     if _inline_closure_call(B, i, remap, depth_of):
